@@ -396,6 +396,67 @@ def gen_inputs(universe, thorough, seed):
             for _ in range(3 if thorough else 1):
                 inputs.append({"i": len(inputs) + 1, "st": "race", "src": "race", "m": dict(BLANK), "mut": [], "raw": "", "dem": "", "stage": "", "cls": "race:%s/%s" % (cse, bk),
                                "race": {"case": cse, "b": bk}})
+    # (a6) topic-name classes for requests of sessions NOT attached to the topic: the hub serves them in helper goroutines
+    # (replyOfflineTopicGetDesc / GetSub / SetSub) or itself (topicUnreg); a panic there is a panic of the whole process
+    B64 = "ABCDEFGHIJKLMNOPQRSTUVWXYZabcdefghijklmnopqrstuvwxyz0123456789-_"
+    def b64name(n):
+        return "".join(rng.choice(B64) for _ in range(n))
+    names = []
+    for n in ([23, 24, 32, 33, 43, 44, 64] if not thorough else range(23, 65)):
+        names.append(("p2p-overlong", "p2p" + b64name(n)))
+    for n in [1, 11, 16, 21]:
+        names.append(("p2p-short", "p2p" + b64name(n)))
+    good22 = b64name(22)
+    for pos in range(22):
+        for bad in (["!"] if not thorough else ["!", "=", "+", "/", " ", "é", "\u0000"]):
+            names.append(("p2p-badchar", "p2p" + good22[:pos] + bad + good22[pos + 1:]))
+    for n in ([12, 13, 16, 22, 64] if not thorough else range(12, 65)):
+        names.append(("usr-overlong", "usr" + b64name(n)))
+    good11 = b64name(11)
+    for pos in range(11):
+        for bad in (["!"] if not thorough else ["!", "=", "+", "/", " ", "é"]):
+            names.append(("usr-badchar", "usr" + good11[:pos] + bad + good11[pos + 1:]))
+    for pfx in ["grp", "chn", "fnd"]:
+        for n in [12, 32, 64, 256, 5000]:
+            names.append((pfx + "-overlong", pfx + b64name(n)))
+    names += [("zero-id", "usr" + "A" * 11), ("zero-id", "p2p" + "A" * 22), ("zero-id", "$P2PSELFZERO"), ("zero-id", "$P2PZEROSELF"),
+              ("self-twice", "$P2PSELF2"), ("self-id", "$SELF"), ("p2p-by-name", "$P2PSELFCAROL"), ("p2p-by-name", "$P2PCAROLSELF"),
+              ("p2p-nousers", "p2p" + good22), ("usr-nouser", "usr" + good11)]
+    unatt = [("get-desc", "get", [{"path": ["get", "what"], "val": "desc"}]), ("get-sub", "get", [{"path": ["get", "what"], "val": "sub"}]),
+             ("get-desc-sub", "get", [{"path": ["get", "what"], "val": "desc sub"}]),
+             ("set-desc", "set", []), ("set-sub", "set", [{"path": ["set", "desc"], "val": "$DELETE"}, {"path": ["set", "sub"], "val": {"mode": "JRWPS"}}]),
+             ("set-sub-user", "set", [{"path": ["set", "desc"], "val": "$DELETE"}, {"path": ["set", "sub"], "val": {"user": "$CAROL", "mode": "JRW"}}]),
+             ("del-topic", "del", [{"path": ["del", "what"], "val": "topic"}, {"path": ["del", "delseq"], "val": "$DELETE"}]),
+             ("leave", "leave", []), ("leave-unsub", "leave", [{"path": ["leave", "unsub"], "val": True}]),
+             ("note-recv", "note", [{"path": ["note", "what"], "val": "recv"}, {"path": ["note", "seq"], "val": 1}]),
+             ("sub", "sub", [])]
+    for st in ["auth", "rootatt"]:
+        for ncls, nm in names:
+            for lbl, kind, muts in unatt:
+                if ncls == "p2p-by-name" or ncls == "self-id":
+                    dem = "reply"        # well-formed names of (possibly) existing topics addressed in an unusual way
+                else:
+                    dem = "err"
+                add(st, "mut", BASES[kind][0], "unattached:%s/%s" % (lbl, ncls), muts + [{"path": [kind, "topic"], "val": nm}], dem="none" if kind == "note" else dem)
+    # (a7) {get} with every combination and order of what-tokens x kinds of topic (attached / not attached / non-existent / p2p / me / fnd)
+    toks = ["desc", "sub", "data", "del", "tags", "cred"]
+    whats = []
+    for mask in range(1, 64):
+        sub = [t for i, t in enumerate(toks) if mask >> i & 1]
+        whats.append(" ".join(sub))
+        if len(sub) > 1:
+            sh = sub[:]
+            rng.shuffle(sh)
+            whats.append(" ".join(sh))
+            if thorough:
+                whats.append(" ".join(reversed(sub)))
+    whats += ["zzz", "desc zzz", "zzz desc", "zzz sub data", "desc desc", "sub sub desc", "data  del", " desc", "desc ", "  ", "desc\tsub", "desc,sub", "DESC", "desc sub data del tags cred zzz",
+              "desc sub data del tags cred desc sub data", "cred tags del data sub desc zzz zzz zzz"]
+    for st, targets in [("authatt", ["$GRP", "$CAROL", "me", "fnd", "grpVerifNoSuchG"]), ("auth", ["$GRP", "$CAROL", "me", "fnd", "grpVerifNoSuchG", "usrVerifNoSuch"]),
+                        ("rootatt", ["$GRP", "me", "sys"])]:
+        for tp in targets:
+            for w in whats:
+                add(st, "mut", BASES["get"][0], "get-what:%s/%d" % (tp.strip("$"), len(w.split())), [{"path": ["get", "what"], "val": w}, {"path": ["get", "topic"], "val": tp}], dem="reply")
     # (b) byte strings
     for lbl, b, dem in raw_inputs(rng, 3000 if thorough else 120):
         for st in (["fresh", "auth", "rootatt"] if thorough else ["fresh", "auth"]):
